@@ -220,6 +220,18 @@ def gen_step(model, rels: list[Relation], rng: random.Random, weights: dict[str,
                 kw["no_such_attribute_xyz"] = 1
             return Step("create_nested", rel, {"kw": {"name": "outer", attr: f"NewObject({hint})"}, "uuid": inner, "bad": fail},
                         lambda lst=lst, kw=kw: lst.create(**kw))
+        if op == "assign" and n >= 1 and type(rel.acc).__name__ == "LinkAccessor" and getattr(rel.acc, "tag", None):
+            # whole-relation assignment on a link-element relation: a sub-sequence in random order, or (rejected)
+            # the members plus a duplicate when the relation enforces uniqueness
+            members = list(lst)
+            if getattr(rel.acc, "unique", False) and rng.random() < 0.4:
+                new = [*members, members[0]]
+                return Step("assign_dup", rel, {"new_uuids": [m.uuid for m in new]},
+                            lambda rel=rel, new=new: setattr(rel.owner, rel.attr, new))
+            keep = rng.sample(members, rng.randrange(1, n + 1))
+            rng.shuffle(keep)
+            return Step("assign", rel, {"new_uuids": [m.uuid for m in keep]},
+                        lambda rel=rel, keep=keep: setattr(rel.owner, rel.attr, keep))
         if op == "assign" and rel.contain and n >= 2 and type(rel.acc).__name__ != "RoleTagAccessor":
             # whole-list assignment: a random sub-sequence of the members in random order, sometimes with one moved-in object
             members = list(lst)
